@@ -6,6 +6,7 @@
 // as integers (ppm of n); thresholds and counting are the specification's.
 #include <memory>
 #include <algorithm>
+#include <sstream>
 #include <kll_sketch.hpp>
 #include <req_sketch.hpp>
 #include <quantiles_sketch.hpp>
@@ -44,6 +45,13 @@ template<class Sk, class MkK> static Sk build_tree(const std::vector<float>& v, 
   b.merge(c); a.merge(b);
   return a;
 }
+// the published error of the sketch restored through the bytes and the stream path: [eps bytes, eps pmf bytes, eps stream, eps pmf stream] in ppm
+template<class Sk> static std::string restored_eps(const Sk& s) {
+  auto img = s.serialize(); Sk rb = Sk::deserialize(img.data(), img.size());
+  std::stringstream ss; s.serialize(ss); Sk rs = Sk::deserialize(ss);
+  return "[" + std::to_string(ppm(rb.get_normalized_rank_error(false))) + "," + std::to_string(ppm(rb.get_normalized_rank_error(true))) + "," +
+         std::to_string(ppm(rs.get_normalized_rank_error(false))) + "," + std::to_string(ppm(rs.get_normalized_rank_error(true))) + "]";
+}
 template<class Sk> static void eps_report(const char* fam, const char* group, int k, long n, const Sk& s);
 template<class Sk, class Mk> static void eps_trial(const char* fam, int k, long n, bool merged, vt::Rng& g, Mk mk, const char* group = "flat") {
   std::vector<float> v = permutation(n, g);
@@ -66,7 +74,8 @@ template<class Sk> static void eps_report(const char* fam, const char* group, in
   auto pmf = s.get_PMF(sp.data(), (uint32_t)sp.size(), false);   // exclusive: bin j = [sp[j-1], sp[j])
   double worst = 0; for (size_t b = 0; b < pmf.size(); b++) worst = std::max(worst, std::fabs(pmf[b] - 0.1));
   Ev("Trial").str("fam", fam).str("kind", "eps").str("group", group).i("k", k).i("n", n).i("sn", (long long)s.get_n())
-    .i("eps", ppm(s.get_normalized_rank_error(false))).i("epspmf", ppm(s.get_normalized_rank_error(true))).il("errs", errs).i("pmferr", ppm(worst)).emit();
+    .i("eps", ppm(s.get_normalized_rank_error(false))).i("epspmf", ppm(s.get_normalized_rank_error(true)))
+    .raw("epsrt", restored_eps(s)).il("errs", errs).i("pmferr", ppm(worst)).emit();
 }
 // the REQ observations of one query batch: true rank, estimate and bounds in ppm; for the exactness claim (a bound pair of zero width
 // at 3 standard deviations says "this rank is exact") the estimate and the 3-sd bounds as D tokens (compared for equality only) and the
